@@ -330,8 +330,9 @@ def inner_case(ty, shape, cfg, kind):
 def norm_case(ty, shape, cfg, kind):
     n = prod(shape)
     a = Buf('a', ty, n, 'in', atoms='AA'); c = Buf('c', ty, 1, 'out')
-    decl = town(ty, shape, 'a') if kind == 'own' else tmap(ty, shape, 'a')
-    body = '    %s\n    c[0] = norm(A);' % decl
+    decl = town(ty, shape, 'a') if kind in ('own', 'expr') else tmap(ty, shape, 'a')
+    # kind 'expr': norm of an unevaluated element-wise expression -- the fused, 8/4/2/1-way unrolled kernel of unary_norm_op.h
+    body = '    %s\n    c[0] = norm(%s);' % (decl, 'A' if kind != 'expr' else 'A + 0')
     ens = [(c, 0, E.total([E.inp(a, k) * E.inp(a, k) for k in range(n)], ty).sqrt())]
     mono = [E.inp(a, k) * E.inp(a, k) for k in range(n)]     # squares are the only products inside the typing (atoms='AA')
     return atoms_cases(lambda v: cid('norm', ty, shape, kind + v, cfg), body, [a, c], ens, mono, cfg)
@@ -506,6 +507,9 @@ def cases(tier, seed):
                     if main_std:
                         for shape in [(2, 2), (3, 3)]:
                             out += norm_case(ty, shape, cfg, 'own')
+                        # every unroll stage of the lazy kernel once (8V only exists under AVX-512), plus a scalar tail
+                        for n in sorted({3, V + 1, 7 * V + 1} | ({15 * V + 1, 8 * V} if isa == 'avx512' else set())):
+                            out += norm_case(ty, (n,), cfg, 'expr')
                 # ---- product: multilinear pair for n <= 9, bounded 0/1 beyond ----
                 if mult_ok and main_std:
                     szs = {1, 2, 3, V - 1, V, V + 1, 2 * V + 1} if not full else set(range(1, 10)) | {V - 1, V, V + 1, 2 * V + 1}
